@@ -194,12 +194,19 @@ class Prop(common.PropertyCheck):
         for i in range(ng):
             if sc[ng + i] != -sc[i]:
                 return 'standard curve is not odd: f(%r)=%r, f(-x)=%r' % (x[i], sc[i], sc[ng + i])
-            want = math.exp(p[1]) * x[i] ** p[0]
-            if abs(sc[i] - want) > 1e-9 * abs(want):
+            try:
+                want = math.exp(p[1]) * x[i] ** p[0]
+            except OverflowError:
+                want = float('inf')
+            if not math.isfinite(want):
+                self.exclude('struct: exp(b) x^m beyond the double range (identities not evaluable)')
+                continue
+            # comparisons written so that a NaN on either side fails them
+            if not (abs(sc[i] - want) <= 1e-9 * abs(want)):
                 return 'standard curve(%r) = %r but exp(b) x^m = %r with the returned parameters' % (x[i], sc[i], want)
             bm = unbits(impl['bm'][i])
-            if abs(bm - (sc[i] - p[2])) > 1e-9 * max(abs(sc[i]), abs(p[2]), 1e-300):
-                return 'bead model %r != standard curve %r - autofluorescence %r' % (bm, sc[i], p[2])
+            if not (abs(bm - (sc[i] - p[2])) <= 1e-9 * max(abs(sc[i]), abs(p[2]), 1e-300)):
+                return 'bead model(%r) = %r != standard curve %r - autofluorescence %r' % (x[i], bm, sc[i], p[2])
         if p[0] > 0:
             gs = sorted(range(25), key=lambda i: x[i])
             if any(sc[b] <= sc[a] for a, b in zip(gs, gs[1:]) if x[b] > x[a]):
@@ -208,7 +215,7 @@ class Prop(common.PropertyCheck):
             return 'parameter names %s' % impl['names']
         if case['k'] == 'recover':
             self.bump('recovery-fits')
-            if impl['maxdev'] > 0.05:
+            if not (impl['maxdev'] <= 0.05):
                 return 'fitted standard curve deviates %.1f%% from exp(b) rfi^m (m=%.3f b=%.3f autofluorescence=%s ladder %d)' % (
                     100 * impl['maxdev'], case['m'], case['b'], case['af'], case['ladder'])
         return None
@@ -223,11 +230,11 @@ class Prop(common.PropertyCheck):
             return 'driver: ' + model['driver_error']
         for a, b in zip(model['sc'], impl['sc']):
             a, b = unbits(a), unbits(b)
-            if abs(a - b) > 1e-10 * abs(b):
+            if common.far(a, b, 1e-10 * abs(b)):
                 return 'standard curve: Lean Float %r vs implementation %r' % (a, b)
         for a, b in zip(model['bm'], impl['bm']):
             a, b = unbits(a), unbits(b)
-            if abs(a - b) > 1e-10 * (abs(b) + abs(unbits(impl['p'][2]))):
+            if common.far(a, b, 1e-10 * (abs(b) + abs(unbits(impl['p'][2])))):
                 return 'bead model: Lean Float %r vs implementation %r' % (a, b)
         return None
 
